@@ -3064,7 +3064,12 @@ theorem restart_facts (d : Durable) (retain : Nat) (sor : Bool) (n : Node)
     extract_lets snap log lastIdx lastT sc latest committed
     have e0 : snap = {} := by unfold snap; rw [hs]; rfl
     have e1 : log = d.log := by
-      unfold log; rw [e0]; rw [if_neg]; show ¬ d.log.last < 0; omega
+      have hst : staleLog d = false := by
+        unfold staleLog
+        rw [hs]
+        show (decide (d.log.last < 0) || (decide (d.log.prev < 0) && _)) = false
+        simp
+      unfold log; rw [hst]; rfl
     refine ⟨?_, rfl, rfl, by show snap.index = 0; rw [e0]⟩
     show ({ log with flushed := log.last } : NLog) = _
     rw [e1]
